@@ -16,7 +16,8 @@
    not: the ordered window function `shift` (every other ordered window function raises on Polars 1.44.2), aggregates of a
    constant `(1).sum()`, join key pairs with different names on the two sides, methods outside the vocabulary of Model/Sem.v;
    those are covered by the correspondence and the oracle only.  CSortTies / CJoinKeyRepr / CGroupKeyRepr state that the
-   result is determined at all (no ties under a limit; equal keys are written the same way). *)
+   result is determined at all (no ties under a limit; equal keys are written the same way).  In a select_rows predicate
+   a comparison other than != may see nulls under and / or (filter_nulls_ok): null and False both drop the row. *)
 From Coq Require Import List Bool Arith ZArith QArith String Permutation.
 Import ListNotations.
 From DA Require Import Base.PyRT Base.Val Model.Sem Model.SemCases Model.PolarsExec Proofs.PolarsP8.
@@ -115,6 +116,12 @@ Example C03_guard_example_right_join_order_concat :
                    (Some "src") "top" "all" in
   agree_guardb p ex_env = true /\ plexec p ex_env <> Raise /\ plexec p ex_env <> Unmodelled.
 Proof. cbv zeta. split; [vm_compute; reflexivity|split; vm_compute; discriminate]. Qed.
+
+(* a row filter on a nullable column is inside the guard: a null predicate (Polars) and a False one (Pandas) both drop the row *)
+Example C03_guard_example_filter_on_null :
+  let p := OSelectRows (OTable "d" ["k"; "a"; "s"]) (EOp "and" [EOp ">" [ECol "a"; EConst (Q2 1 1)]; EOp "<=" [ECol "k"; EConst (Q2 2 1)]]) in
+  agree_guardb p ex_env = true /\ option_map (fun t => List.length (rows t)) (match plexec p ex_env with Ok t => Some t | _ => None end) = Some 1%nat.
+Proof. cbv zeta. split; vm_compute; reflexivity. Qed.
 
 (* raising is allowed: the window functions that Polars 1.44.2 no longer has raise instead of returning a table *)
 Example C03_removed_window_function_raises :
